@@ -380,7 +380,11 @@ func (a *Analysis) site(ctx *Ctx, ins ssa.CallInstruction, callee *ssa.Function,
 		a.siteIdx[k] = s
 	}
 	if s.Args == nil {
-		for _, ar := range ins.Common().Args {
+		for i, ar := range ins.Common().Args {
+			if i == 1 && strings.HasPrefix(s.Callee, "storage.") {
+				s.Args = append(s.Args, a.tb.editedTerm(ctx, ar, ins))
+				continue
+			}
 			s.Args = append(s.Args, a.tb.Term(ctx, ar))
 		}
 		if v := ins.Value(); v != nil {
